@@ -252,6 +252,15 @@ def check_chain(case):
 RULE = ("non-trivial = the result is shorter than the input (a merge or a "
         "removal happened) and the table has >= 2 distinct routes")
 
+def check_fuzzed(case):
+    """Target of the Atheris campaign: one minimiser on a decoded table."""
+    if case["fn"] == "rdr" or all(
+            a["pat"].count("X") <= b["pat"].count("X") for a, b in zip(
+                case["table"]["entries"], case["table"]["entries"][1:])):
+        return check_single(case)
+    return {"nontrivial": False}
+
+
 CLAUSES = [
     Clause("remove-default-routes", check_single, strategy=strat_rdr,
            rule="orthogonal, generality-ordered and arbitrarily ordered "
@@ -264,6 +273,20 @@ CLAUSES = [
                 "ordered_covering(); " + RULE,
            examples={"quick": 1500, "thorough": 30000},
            shards={"quick": 8, "thorough": 16}),
+    Clause("fuzz-ordered-covering", check_fuzzed,
+           fuzz={"target": "c04", "runs": {"thorough": 60000},
+                 "max_len": 64,
+                 "corpus": [bytes([3, 0x80, 0]) + bytes(
+                     [0x00, 0x10, 0x05, 0x10, 0x0a, 0x10, 0x3f, 0x20]),
+                     bytes([2, 1, 1]) + bytes([0, 0x30, 1, 0x30, 4, 0x50]),
+                     bytes([5, 0x80, 0]) + bytes(range(40))]},
+           rule="Atheris (thorough tier only) on the merge-refinement code: "
+                "bytes -> (active bits, up to 24 entries in increasing "
+                "generality, target, minimiser) -> exhaustive first-match "
+                "equivalence; coverage of ordered_covering.py guides the "
+                "search",
+           examples={"quick": 0, "thorough": 0},
+           shards={"quick": 1, "thorough": 4}),
     Clause("front-end", check_chain, strategy=strat_chain,
            rule="minimise_table / minimise_tables over 1-3 chips with every "
                 "method subset and order, int / dict / None targets; " + RULE,
